@@ -570,6 +570,16 @@ def multidoc_stylesheet(rng):
     body = []
     for _ in range(rng.choice([2, 3, 4])):
         body.append({"i": "lre", "name": cps(rng.choice(["p", "q"])), "attrs": [], "body": rng.choice(pieces)(rng.choice([2, 3]))})
+    # document() with a NODE-SET argument (the main document then is the one whose nodes name d2.xml / d3.xml, some of them twice): the
+    # result is a union - each named document once
+    refs = rng.random() < 0.4
+    if refs:
+        NS_ARGS = [P_(DOS, ch(t_name("b")), abs_=True), bin_("|", P_(DOS, ch(t_name("b")), abs_=True), P_(DOS, at(T_ANY), abs_=True)), P_(DOS, ch(t_name("c")), at(T_ANY), abs_=True),
+                   P_(DOS, ch(T_ANY), ch(T_ANY), abs_=True), P_(DOS, ch(t_name("b"), num(1)), abs_=True), bin_("|", P_(DOS, ch(t_name("b"), num(1)), abs_=True), P_(DOS, ch(t_name("b"), num(3)), abs_=True))]
+        for a_ in rng.sample(NS_ARGS, 3):
+            dn = fn("document", a_)
+            body.append({"i": "lre", "name": cps("r"), "attrs": [], "body": [tag("n="), vo(fn("count", dn)), tag(" e="), vo(fn("count", path([ch(T_ANY)], start=dn))),
+                         {"i": "for-each", "sel": dn, "sorts": [], "body": [tag("["), vo(fn("position")), tag("/"), vo(fn("last")), tag("]")]}]})
     templates = [
         {"rid": 1, "hasMatch": True, "match": P_(ch(T_ANY)), "name": "", "mode": "x", "hasPrio": False, "prio": z, "params": [],
          "body": show + ([{"i": "apply-templates", "hasSel": False, "sel": NONE, "mode": "x", "sorts": [], "params": []}] if rng.random() < 0.6 else [])},
@@ -580,7 +590,7 @@ def multidoc_stylesheet(rng):
     ]
     keys = [{"name": "k", "match": rng.choice([P_(ch(T_ANY)), P_(ch(t_name("b")))]), "use": rng.choice([P_(at(t_name("x"))), fn("count", P_(ch(T_NODE)))])}]
     strip = [{"strip": True, "name": rng.choice(["*", "a", "b"])}] if rng.random() < 0.5 else []
-    return {"templates": templates, "gvars": [], "keys": keys, "strip": strip, "ndocs": 2}
+    return {"templates": templates, "gvars": [], "keys": keys, "strip": strip, "ndocs": 2, "refs": refs}
 
 
 def attrsets_stylesheet(rng):
@@ -625,7 +635,9 @@ def attrsets_stylesheet(rng):
                 "sorts": [], "body": [{"i": "copy", "uses": uses(), "body": [tag("c")] if rng.random() < 0.5 else []}]}
     templates = [
         {"rid": 1, "hasMatch": True, "match": P_(ch(T_ANY)), "name": "", "mode": "", "hasPrio": False, "prio": z, "params": [],
-         "body": [user(1)] + ([{"i": "apply-templates", "hasSel": False, "sel": NONE, "mode": "", "sorts": [], "params": []}] if rng.random() < 0.7 else []), "mod": 1},
+         # a LOCAL variable with the name of the top-level one the attribute templates read: they must not see it (7.1.4)
+         "body": ([{"i": "variable", "name": "gs", "hasSel": True, "sel": lit("L"), "body": []}] if rng.random() < 0.5 else []) + [user(1)]
+                 + ([{"i": "apply-templates", "hasSel": False, "sel": NONE, "mode": "", "sorts": [], "params": []}] if rng.random() < 0.7 else []), "mod": 1},
         {"rid": 2, "hasMatch": True, "match": P_(ch(T_TEXT)), "name": "", "mode": "", "hasPrio": False, "prio": z, "params": [], "body": [{"i": "copy", "uses": uses(), "body": []}], "mod": 1},
         {"rid": 3, "hasMatch": True, "match": P_(abs_=True), "name": "", "mode": "", "hasPrio": False, "prio": z, "params": [],
          "body": [{"i": "lre", "name": cps("out"), "attrs": [], "uses": uses() if rng.random() < 0.5 else [], "body": [
